@@ -1235,13 +1235,39 @@ def check_c16(tier, seed, chk):
 # C15 / C03 (end to end) -- options through attribute levels, CLI, environment, builder
 # ----------------------------------------------------------------------------------------
 
+def simulate(cost, gen_cost, n, s, min_ps, max_ps, skip, precision_ps=1000):
+    """The documented sampling rule (C03 / C04 / C19) for one thread under the virtual clock, where a call
+    costs `cost` ticks of timed and an input `gen_cost` ticks of external time and nothing else advances the
+    clock. Returns (calls, recorded samples, iterations per sample)."""
+    if max_ps == 0 or n == 0 or s == 0:
+        return 0, 0, 0
+    max_ps = float("inf") if max_ps is None else max_ps
+    min_ps = 0 if min_ps is None else min_ps
+    tuned = s is None
+    size = 1 if tuned else s
+    passed = not tuned
+    elapsed = recorded = calls = 0
+    while True:
+        calls += size
+        timed = size * cost
+        if not passed and timed // precision_ps > 100:
+            passed, recorded = True, 0
+        if passed:
+            recorded += 1
+        elapsed += max(timed, 1000) if skip else size * (cost + gen_cost)
+        more = (not passed) or recorded < n
+        if elapsed >= max_ps or (not more and elapsed >= min_ps):
+            break
+        if not passed:
+            size *= 2
+    # tuning cut short by max_time: the newest round is all there is
+    return calls, (recorded if passed else 1), size
+
+
 def tuned_calls(cost_ps, n, precision_ps=1000):
     """Calls of a T = 1 benchmark with automatic sample size under the virtual clock."""
-    size, calls = 1, 0
-    while (size * cost_ps) // precision_ps <= 100:
-        calls += size
-        size *= 2
-    return calls + n * size, size
+    calls, _, size = simulate(cost_ps, 0, n, None, None, None, False, precision_ps)
+    return calls, size
 
 
 def expected_bench_mode(b, ncpu, runner):
@@ -1254,19 +1280,24 @@ def expected_bench_mode(b, ncpu, runner):
         tcs_run = tcs
     n = runner.get("sample_count", eff.get("sample_count"))
     s = runner.get("sample_size", eff.get("sample_size"))
+    runner_max = 0 if runner.get("max_time_zero") else runner.get("max_time_ps")
+    max_ps = runner_max if runner_max is not None else eff.get("max_time_ps")
+    min_ps = runner.get("min_time_ps", eff.get("min_time_ps"))
+    skip = runner.get("skip_ext", eff.get("skip_ext"))
     n_eff = 100 if n is None else n
+    timed_limits = (max_ps not in (None, 0)) or (min_ps not in (None, 0))
     calls, rows = 0, []
     for t in tcs_run:
-        if n == 0 or s == 0 or eff.get("max_time_zero") or runner.get("max_time_zero"):
+        if n == 0 or s == 0 or max_ps == 0:
             rows.append((t, 0, 0))
             continue
         rounds = -(-n_eff // t)
-        if s is None:
-            if t != 1:
-                return None, None  # tuned size with several threads: clock readings depend on the schedule
-            c, size = tuned_calls(b["cost"], n_eff)
+        if t != 1 and (s is None or timed_limits):
+            return None, None  # several threads: clock readings depend on the schedule
+        if t == 1:
+            c, samples, size = simulate(b["cost"], b.get("gen_cost", 0), n_eff, s, min_ps, max_ps, bool(skip))
             calls += c
-            rows.append((t, rounds * t, rounds * t * size))
+            rows.append((t, samples, samples * size))
         else:
             calls += s * t * rounds
             rows.append((t, rounds * t, rounds * t * s))
@@ -1290,12 +1321,26 @@ RUNNER_SOURCES = [
     ("cli max_time 0", ["--max-time", "0"], {}, None, {"max_time_zero": True}),
     ("cli items", ["--items-count", "5", "--sample-size", "1", "--sample-count", "1"], {}, None, {"sample_size": 1, "sample_count": 1, "items": 5}),
     ("env bytes", ["--sample-size", "1", "--sample-count", "1"], {"DIVAN_BYTES_COUNT": "77"}, None, {"sample_size": 1, "sample_count": 1, "bytes": 77}),
+    ("cli max_time", ["--max-time", "0.0000000054", "--sample-size", "1"], {}, None, {"max_time_ps": 5000, "sample_size": 1}),
+    ("env max_time", ["--sample-size", "2"], {"DIVAN_MAX_TIME": "0.0000000074"}, None, {"max_time_ps": 7000, "sample_size": 2}),
+    ("builder max_time", ["--sample-size", "1"], {}, "from_args;max_time_ns=6;main", {"max_time_ps": 6000, "sample_size": 1}),
+    ("cli over env max_time", ["--max-time", "0.0000000034", "--sample-size", "1"], {"DIVAN_MAX_TIME": "0.0000000094"}, None, {"max_time_ps": 3000, "sample_size": 1}),
+    ("cli min_time", ["--min-time", "0.0000000094", "--sample-size", "1", "--sample-count", "2"], {}, None, {"min_time_ps": 9000, "sample_size": 1, "sample_count": 2}),
+    ("env min_time", ["--sample-size", "1", "--sample-count", "2"], {"DIVAN_MIN_TIME": "0.0000000054"}, None, {"min_time_ps": 5000, "sample_size": 1, "sample_count": 2}),
+    ("builder min_time", ["--sample-size", "2", "--sample-count", "1"], {}, "from_args;min_time_ns=7;main", {"min_time_ps": 7000, "sample_size": 2, "sample_count": 1}),
+    ("cli skip_ext_time flag", ["--skip-ext-time", "--sample-size", "1"], {}, None, {"skip_ext": True, "sample_size": 1}),
+    ("cli skip_ext_time false", ["--skip-ext-time=false", "--sample-size", "1"], {}, None, {"skip_ext": False, "sample_size": 1}),
+    ("env skip_ext_time", ["--sample-size", "1"], {"DIVAN_SKIP_EXT_TIME": "true"}, None, {"skip_ext": True, "sample_size": 1}),
+    ("builder skip_ext_time", ["--sample-size", "1"], {}, "from_args;skip_ext_time=true;main", {"skip_ext": True, "sample_size": 1}),
+    ("cli max_time tuned", ["--max-time", "0.0000000304"], {}, None, {"max_time_ps": 30000}),
     ("builder chars+cycles", ["--sample-size", "1", "--sample-count", "1"], {}, "from_args;chars_count=3;cycles_count=4;main", {"sample_size": 1, "sample_count": 1, "chars": 3, "cycles": 4}),
 ]
 
 
-def check_options(tier, seed, chk, prop):
+def check_options(tier, seed, chk, prop, sources=None):
+    """sources: predicate on a RUNNER_SOURCES entry (None = all)."""
     binary, model = ensure_built(tier, chk)
+    runner_sources = [x for x in RUNNER_SOURCES if sources is None or sources(x)]
     res = new_result("zoo-" + prop, tier)
     t0 = time.time()
     ncpu = model["_ncpu"]
@@ -1309,7 +1354,7 @@ def check_options(tier, seed, chk, prop):
             e["ZOO_MODE"] = mode
         return src, run_zoo(binary, ["--bench", "--timer", "tsc"] + argv + ["^zoo::(opt|pw)::"], e, want_stats=True, clock=CLOCK, timeout=900)
 
-    for (name, argv, env, mode, runner), r in pmap(one, RUNNER_SOURCES):
+    for (name, argv, env, mode, runner), r in pmap(one, runner_sources):
         count_run(res, r, len(r.log))
         desc = "runner options from %s (%s %s %s)" % (name, " ".join(argv), env, mode or "")
         sig = {"check": "options-e2e", "source": name.split(" ")[0], "field": " ".join(name.split(" ")[1:])}
@@ -1377,10 +1422,10 @@ def check_options(tier, seed, chk, prop):
         got = [p for p in executed_paths(model, r) if p.startswith("zoo::ign::")]
         if want != got:
             violation(res, {"check": "ignore-e2e", "flag": flag}, "flag %s: executed %s..., effective ignore demands %s... (differences: %s)" % (flag, got[:3], want[:3], sorted(set(want) ^ set(got))[:5]), r)
-    res["distinct_outcomes"] = len(RUNNER_SOURCES)
-    res["samples"] = [{"runner_sources": [x[0] for x in RUNNER_SOURCES]}, {"option_family_benches": len(opt_cases)}]
+    res["distinct_outcomes"] = len(runner_sources)
+    res["samples"] = [{"runner_sources": [x[0] for x in runner_sources]}, {"option_family_benches": len(opt_cases)}]
     res["bounds"] = {"attribute_levels": "benchmark and 3 nested groups: all 16 set/unset patterns for sample_count and for sample_size; threads / counters / zero cases; plus the pairwise feature family (every compatible pair of 21 item features)",
-                     "runner_sources": len(RUNNER_SOURCES), "observed": ["calls per benchmark (invocation log)", "samples / iters per thread count (statistics tap + painted cells)", "counter kinds and values", "thread-count branches", "executed set under the three ignore flags"],
+                     "runner_sources": len(runner_sources), "time_options": "max_time / min_time / skip_ext_time as Duration and float seconds at benchmark and group level, on the command line, in DIVAN_* variables and through the builder; exact round counts under the virtual clock (a call costs a fixed number of ticks, an input of the costly generator 3000)", "observed": ["calls per benchmark (invocation log)", "samples / iters per thread count (statistics tap + painted cells)", "counter kinds and values", "thread-count branches", "executed set under the three ignore flags"],
                      "excluded": "automatic sample size with several threads (clock readings depend on the schedule)", "tier_zoo": tier}
     res["wall_s"] = time.time() - t0
     return [res]
@@ -1392,6 +1437,20 @@ def check_c15(tier, seed, chk):
 
 def check_c03(tier, seed, chk):
     return check_options(tier, seed, chk, "C03")
+
+
+def _time_source(x):
+    return x[0] == "none" or any(k in x[4] for k in ("max_time_ps", "min_time_ps", "skip_ext", "max_time_zero"))
+
+
+def check_c04(tier, seed, chk):
+    """End-to-end slice of the stop rule: time options from every source, exact round counts."""
+    return check_options(tier, seed, chk, "C04", _time_source)
+
+
+def check_c19(tier, seed, chk):
+    """End-to-end slice of automatic sample sizes: tuned benchmarks with and without a budget."""
+    return check_options(tier, seed, chk, "C19", lambda x: x[0] in ("none", "cli max_time tuned", "cli sample_count", "cli min_time"))
 
 
 # ----------------------------------------------------------------------------------------
@@ -1481,7 +1540,7 @@ def check_c10(tier, seed, chk):
     return check_alloc(tier, seed, chk, "C10")
 
 
-CHECKS = {"C02": check_c02, "C10": check_c10, "C12": check_c12, "C13": check_c13, "C14": check_c14, "C17": check_c17, "C20": check_c20, "C16": check_c16, "C15": check_c15, "C03": check_c03, "C08": check_c08}
+CHECKS = {"C02": check_c02, "C10": check_c10, "C12": check_c12, "C13": check_c13, "C14": check_c14, "C17": check_c17, "C20": check_c20, "C16": check_c16, "C15": check_c15, "C03": check_c03, "C08": check_c08, "C04": check_c04, "C19": check_c19}
 
 
 def run(job, tier, seed, chk):
